@@ -314,7 +314,9 @@ class BallSearch(MpfController):
         lost_balls = self.playfield.balls
         self.machine.ball_controller.num_balls_known -= lost_balls
         self.playfield.balls = 0
-        self.playfield.available_balls = 0
+        # only the balls which were on the playfield are lost. balls which are on their way to the playfield (eject
+        # requested or in progress) are still available on it.
+        self.playfield.available_balls -= lost_balls
 
         self._compensate_lost_balls(lost_balls)
 
